@@ -568,7 +568,7 @@ R('unpackdict-src', 1,
 R('melt', 1, [lambda e, w: e.melt(w.s[0], 'a'),
               lambda e, w: e.melt(w.s[0], key=w.arg(['a', 'b'])),
               lambda e, w: e.melt(w.s[0], 'a', variables=w.arg(['c']))],
-  'transform.reshape', stream=EXP0)
+  'transform.reshape', stream=FIL0)   # no value fields -> no output rows
 R('recast', 1,
   [lambda e, w: e.recast(e.melt(w.s[0], 'a', variables=['b', 'c'])),
    lambda e, w: e.recast(e.melt(w.s[0], 'a', variables=['c']),
